@@ -153,6 +153,12 @@ type RunCfg struct {
 	Undefined bool
 	Consts    map[string]interface{}
 	VarNames  []string // registration order
+	// when Sibling is non-nil the configuration is DERIVED: the first BaseCut stateless declarations are made on a
+	// base configuration (one append each), the configuration used and a sibling are both derived from that base
+	// (ExtendConf or CopyConfig), then each adds its own declarations - the sibling's must not leak into this one
+	Sibling  []string
+	BaseCut  int
+	ViaCopy  bool
 }
 
 func (rc *RunCfg) Coq() string {
@@ -179,7 +185,11 @@ func (rc *RunCfg) Coq() string {
 }
 
 func (rc *RunCfg) Describe() string {
-	return fmt.Sprintf("opts=%v events=%v stateless=%v costs=%v undefined=%v", rc.Opts, rc.Events || rc.Debug, rc.Stateless, rc.Costs, rc.Undefined)
+	d := fmt.Sprintf("opts=%v events=%v stateless=%v costs=%v undefined=%v", rc.Opts, rc.Events || rc.Debug, rc.Stateless, rc.Costs, rc.Undefined)
+	if rc.Sibling != nil {
+		d += fmt.Sprintf(" derived(base declares the first %d, viaCopy=%v, a sibling derived from the same base declares %v)", rc.BaseCut, rc.ViaCopy, rc.Sibling)
+	}
+	return d
 }
 
 type Built struct {
@@ -223,13 +233,40 @@ func (rc *RunCfg) Build() *Built {
 			eval.GetOrRegisterKey(conf, n)
 		}
 	}
+	for k, v := range stdConsts {
+		conf.ConstantMap[k] = v
+	}
 	for k, v := range rc.Consts {
 		conf.ConstantMap[k] = v
 	}
 	for k, v := range rc.Costs {
 		conf.CostsMap[k] = float64(v)
 	}
-	conf.StatelessOperators = append(conf.StatelessOperators, rc.Stateless...)
+	if rc.Sibling == nil {
+		conf.StatelessOperators = append(conf.StatelessOperators, rc.Stateless...)
+	} else {
+		cut := rc.BaseCut
+		if cut > len(rc.Stateless) {
+			cut = len(rc.Stateless)
+		}
+		for _, n := range rc.Stateless[:cut] {
+			conf.StatelessOperators = append(conf.StatelessOperators, n)
+		}
+		derive := func() *eval.Config {
+			if rc.ViaCopy {
+				return eval.CopyConfig(conf)
+			}
+			return eval.NewConfig(eval.ExtendConf(conf))
+		}
+		mine, sib := derive(), derive()
+		for _, n := range rc.Stateless[cut:] {
+			mine.StatelessOperators = append(mine.StatelessOperators, n)
+		}
+		for _, n := range rc.Sibling {
+			sib.StatelessOperators = append(sib.StatelessOperators, n)
+		}
+		conf = mine
+	}
 	b.Conf = conf
 	for n, k := range conf.VariableKeyMap {
 		b.Keys[n] = int16(k)
@@ -381,7 +418,7 @@ func runExpr(e *eval.Expr, b *Built, rc *RunCfg, f *RecFetcher, try bool) (o *Ev
 	nn := len(eval.VerifExport(e).Nodes)
 	ch := make(chan eval.Event, 4*nn+64)
 	e.EventChan = ch
-	func() {
+	guarded(map[string]interface{}{"call": map[bool]string{false: "Eval", true: "TryEval"}[try], "last_compiled_source": lastSource, "config": rc.Describe(), "binding": fmt.Sprint(f.Vals), "available": fmt.Sprint(f.Avail)}, func() {
 		defer func() {
 			if p := recover(); p != nil {
 				o.Panic = p
@@ -393,7 +430,7 @@ func runExpr(e *eval.Expr, b *Built, rc *RunCfg, f *RecFetcher, try bool) (o *Ev
 		} else {
 			o.Val, o.Err = e.Eval(ctx)
 		}
-	}()
+	})
 	close(ch)
 	var evs []eval.Event
 	for ev := range ch {
@@ -405,28 +442,39 @@ func runExpr(e *eval.Expr, b *Built, rc *RunCfg, f *RecFetcher, try bool) (o *Ev
 	return o
 }
 
+var lastSource string
+
 func compileSafe(conf *eval.Config, src string) (e *eval.Expr, err error, pan interface{}) {
-	defer func() {
-		if p := recover(); p != nil {
-			pan = p
-		}
-	}()
-	e, err = eval.Compile(conf, src)
+	lastSource = src
+	guarded(map[string]interface{}{"call": "Compile", "source": src}, func() {
+		defer func() {
+			if p := recover(); p != nil {
+				pan = p
+			}
+		}()
+		e, err = eval.Compile(conf, src)
+	})
 	return
 }
+
+var operandLimitPrefix string
 
 func cerrCode(err error) int {
 	if err == nil {
 		return 0
 	}
+	// which limit was hit: the operand limit is recognised by the message the current tree gives for 128 and 129
+	// operands (probed at start-up); the node limits by the limit the message names, not by its wording
 	m := err.Error()
 	switch {
-	case strings.HasPrefix(m, "operators cannot exceed a maximum of 127 parameters"):
+	case operandLimitPrefix != "" && strings.HasPrefix(m, operandLimitPrefix):
 		return 1
-	case strings.HasPrefix(m, "expression cannot exceed a maximum of 32767 nodes"):
-		return 2
-	case strings.HasPrefix(m, "expression with event nodes cannot exceed"):
+	case operandLimitPrefix == "" && strings.HasPrefix(m, "operators cannot exceed a maximum of 127 parameters"):
+		return 1
+	case strings.Contains(m, "32767") && strings.Contains(m, "event"):
 		return 3
+	case strings.Contains(m, "32767"):
+		return 2
 	}
 	return 9
 }
